@@ -1298,8 +1298,17 @@ def run_stanza_stream(chk):
                                    "detail": "GENERATOR BUG: program is not well-owned: " + line[:300]})
             continue
         progs.append((line, kind, ops))
+    # a slice first (corpus + the targeted families): if the library already dies all over it the failing inputs
+    # are there, and the bulk - where every death costs a sanitizer report - is skipped
+    SMOKE = 400
+    impl = run_impl(exe, [p[0] for p in progs[:SMOKE]])
+    died = sum(1 for o in impl if o.startswith("CRASH"))
+    if len(progs) > SMOKE and died >= SMOKE // 4:
+        stats["skipped_after_smoke_run"] = "%d programs not run: the library died on %d of the first %d" % (len(progs) - SMOKE, died, SMOKE)
+        progs = progs[:SMOKE]
+    else:
+        impl += run_impl(exe, [p[0] for p in progs[SMOKE:]])
     lines = [p[0] for p in progs]
-    impl = run_impl(exe, lines)
     model = vlib.run_parallel(mexe, lines, timeout=900, args=("fixed",)) if mexe else None
 
     def model_line(line, variant):
